@@ -3,20 +3,35 @@ import FstVerif.Model.Sink
 /-
 T-Build: the model of the incremental builder (`Model/Build.lean`, mirror of
 `src/raw/build.rs`) stores exactly the inserted map, for every cache geometry.
+Port of `/verif/probes/BuildProbe.lean` to the real model (byte addresses, `Except`
+outcomes, the concrete `Registry`, the empty key, `len`).
 
-Structure (port of `/verif/probes/BuildProbe.lean` to the real model):
+Main results
+* `build_ok` / `build_ok_set`   round trip of `insertAll` / `addAll` + `finish`
+* `build_layout` / `build_layout_finish` (`Layout`, `LayoutF`)   what the byte layer needs
+* `build_tight`   every transition output is attained below it (`TightStore`)
+* `build_bound` / `build_bound_set`   no stored output exceeds the largest inserted value
+* `insert_result` / `add_result`, `checkLastKey_map_ok_iff` / `checkLastKey_set_ok_iff`,
+  `IOB.step_error`   exact outcomes of the public calls on reachable states
+
+Structure
 * key order facts, `checkLastKey`;
 * the denotation table `denOf` of a store (built oldest to newest, keyed by address);
 * `OutOK`: the layout/shape invariant of the emitted nodes, and `GoodStore` from it;
-* `compile_spec`, `compileTail_spec`, `compileFrom_spec`;
-* the pure stack operations `cps`, `addSuffix`, `chain`;
-* `Inv`: the invariant of the states between public calls, `insert_new_spec`,
-  `add_dup_spec`, `finish_spec`;
-* `build_ok`, `build_ok_set`, `build_layout`, value bound, tightness.
+* `compile_spec`, `compileTail_spec`, `compileFrom_spec` (`SInv`, `Le`);
+* the pure stack operations `cps` (`cps_induct`), `addSuffix`, `chain`;
+* `Core` / `Inv`: the invariant of the states between public calls; `insertOutput_new`,
+  `insert_new`, `add_new`, `add_dup`, `finish_spec`;
+* `Reachable`, errors, layout;
+* `Pass`: further node-wise invariants carried through `compile_from` generically,
+  instantiated by `tightPass` and `boundPass`.
 -/
 namespace Fst
 
-/-! ### key order -/
+/-! ### key order (helpers in `Fst.BuildP` to avoid clashes with other proof files) -/
+
+namespace BuildP
+
 
 theorem u8_lt_irrefl (a : UInt8) : ¬ a < a := UInt8.lt_irrefl a
 
@@ -69,6 +84,9 @@ theorem lexLe_iff {a b : Key} : lexLe a b = true ↔ lexLt a b = true ∨ a = b 
   · rintro (h | rfl)
     · simp [lexLt_asymm h]
     · simp [lexLt_irrefl]
+
+end BuildP
+open BuildP
 
 /-! ### `check_last_key` -/
 
@@ -168,7 +186,7 @@ theorem mem_storeOf {s : BState} {p : Nat × BNode} : p ∈ storeOf s ↔ p ∈ 
 theorem denR_zero (out : List Emit) : denR out 0 = [([], 0)] := by simp [denR, lookT]
 
 theorem lookT_cons_self (a : Nat) (x : KV) (tbl : List (Nat × KV)) (h : a ≠ 0) :
-    lookT ((a, x) :: tbl) a = x := by simp [lookT, h, List.lookup_cons]
+    lookT ((a, x) :: tbl) a = x := by simp [lookT, h]
 
 theorem lookT_cons_ne {a a' : Nat} (x : KV) (tbl : List (Nat × KV)) (h : a ≠ a') :
     lookT ((a', x) :: tbl) a = lookT tbl a := by
@@ -562,6 +580,8 @@ theorem pathKey_length {st : List UNode} (h : WFStack st) : (pathKey st).length 
       simp only [pathKey, hbo, List.length_append, List.length_cons, List.length_nil] at this ⊢
       omega
 
+namespace BuildP
+
 theorem lift_append (b : UInt8) (o : Nat) (x y : KV) :
     lift b o (x ++ y) = lift b o x ++ lift b o y := by simp [lift]
 
@@ -575,6 +595,8 @@ theorem shift_append (p : Nat) (a b : KV) : shift p (a ++ b) = shift p a ++ shif
   simp [shift]
 
 theorem shift_zero (l : KV) : shift 0 l = l := by simp [shift]
+
+end BuildP
 
 /-- a new entry below a path of pending transitions -/
 theorem denK_snoc (d : Nat → KV) : ∀ (xs : List UNode), (∀ u ∈ xs, u.last.isSome) →
@@ -1925,5 +1947,864 @@ theorem reachable_addAll : ∀ (ks : List Key) {s s' : BState}, Reachable s → 
     | ok s1 => rw [hi] at e; exact reachable_addAll rest (Reachable.add k h hi) e
 
 example : Reachable (BState.new 3 2) := Reachable.new 3 2
+
+example : ∃ s, insertAll (BState.new 2 2) [([1], 5), ([1, 2], 3)] = .ok s ∧ Reachable s := by
+  obtain ⟨s, _, _, e, _⟩ := build_ok 2 2 [([1], 5), ([1, 2], 3)] (by simp [SortedKV, lexLt])
+  exact ⟨s, e, reachable_insertAll _ (Reachable.new 2 2) e⟩
+
+
+/-! ### further invariants of the emitted nodes, generically
+
+A `Pass` is a property `Q` of emitted nodes together with the matching property `QU` of
+unfinished nodes (`k` is what hangs below the pending transition); it is carried through
+`compile`, `compileTail` and `compileFrom` once and for all. Used for the value bound and
+for tightness. -/
+
+structure Pass where
+  Q : List Emit → BNode → Prop
+  QU : List Emit → UNode → KV → Prop
+  Q_mono : ∀ {s s' : BState} {n : BNode}, Le s s' → (∀ t ∈ n.trans, AddrOK s t.addr) →
+    Q s.out n → Q s'.out n
+  QU_mono : ∀ {s s' : BState} {u : UNode} {k : KV}, Le s s' → UAddr s u → QU s.out u k → QU s'.out u k
+  freeze : ∀ {out : List Emit} {u : UNode} {a : Nat}, QU out u (denR out a) → Q out (u.freeze a)
+  freeze_none : ∀ {out : List Emit} {u : UNode} {k : KV}, u.last = none → QU out u k → Q out u.node
+
+def Pass.OutQ (P : Pass) (s : BState) : Prop := ∀ e ∈ s.out, P.Q s.out e.node
+
+def Pass.StackQ (P : Pass) (out : List Emit) : List UNode → Prop
+  | [] => True
+  | u :: rest => P.QU out u (denK (denR out) rest []) ∧ P.StackQ out rest
+
+theorem emitted_addrOK {s : BState} (hinv : SInv s) {e : Emit} (he : e ∈ s.out) :
+    ∀ t ∈ e.node.trans, AddrOK s t.addr := by
+  have hmem : (e.addr, e.node) ∈ rstore s.out := by
+    simp only [rstore, List.mem_map]; exact ⟨e, he, rfl⟩
+  obtain ⟨_, _, _, n4⟩ := OutOK_node hinv.out e.addr e.node hmem
+  have hlt := (OutOK_addr hinv.out _ hmem).2
+  intro t ht
+  exact TargetOK_mono (Nat.le_of_lt hlt) (fun _ h => h) (n4 t ht)
+
+theorem Pass.OutQ_mono (P : Pass) {s s' : BState} (hinv : SInv s) (hle : Le s s') (h : P.OutQ s) :
+    ∀ e ∈ s.out, P.Q s'.out e.node :=
+  fun e he => P.Q_mono hle (emitted_addrOK hinv he) (h e he)
+
+theorem Pass.StackQ_mono (P : Pass) {s s' : BState} (hle : Le s s') : ∀ (st : List UNode),
+    (∀ u ∈ st, UAddr s u) → P.StackQ s.out st → P.StackQ s'.out st
+  | [], _, _ => trivial
+  | u :: rest, ha, h => by
+    obtain ⟨h1, h2⟩ := h
+    refine ⟨?_, P.StackQ_mono hle rest (fun w hw => ha w (List.mem_cons_of_mem _ hw)) h2⟩
+    rw [denK_stable hle rest [] (fun w hw => ha w (List.mem_cons_of_mem _ hw))]
+    exact P.QU_mono hle (ha u (by simp)) h1
+
+theorem compile_out {s : BState} {n : BNode} {s' : BState} {a : Nat} (h : s.compile n = .ok (s', a)) :
+    s'.out = s.out ∨ ∃ e, s'.out = e :: s.out ∧ e.node = n := by
+  unfold BState.compile at h
+  split at h
+  · cases h; exact Or.inl rfl
+  · generalize s.reg.entry n = re at h
+    obtain ⟨reg', e⟩ := re
+    cases e with
+    | found a' => cases h; exact Or.inl rfl
+    | notFound b =>
+      simp only at h
+      split at h
+      · cases h
+      · cases h; exact Or.inr ⟨_, rfl, rfl⟩
+    | rejected =>
+      simp only at h
+      split at h
+      · cases h
+      · cases h; exact Or.inr ⟨_, rfl, rfl⟩
+
+theorem compile_pass (P : Pass) {s : BState} {n : BNode} {s' : BState} {a : Nat}
+    (h : s.compile n = .ok (s', a)) (hinv : SInv s) (hn : NodeOK s n) (hall : P.OutQ s)
+    (hq : P.Q s.out n) : P.OutQ s' := by
+  obtain ⟨s'', a'', e, _, hle, _⟩ := compile_spec hinv hn
+  rw [h] at e; cases e
+  have hold := P.OutQ_mono hinv hle hall
+  intro e he
+  rcases compile_out h with ho | ⟨e0, ho, hnode⟩
+  · rw [ho] at he; exact hold e he
+  · rw [ho] at he
+    simp only [List.mem_cons] at he
+    rcases he with rfl | he
+    · rw [hnode]; exact P.Q_mono hle hn.2.2 hq
+    · exact hold e he
+
+theorem compileTail_pass (P : Pass) : ∀ (popped : List UNode) (s s' : BState) (a : Nat),
+    s.compileTail popped = .ok (s', a) → SInv s → WFStack popped →
+    (∀ u ∈ popped, UShape u) → (∀ u ∈ popped, UAddr s u) → P.OutQ s → P.StackQ s.out popped →
+    P.OutQ s' := by
+  intro popped
+  induction popped with
+  | nil => intro s s' a _ _ h; exact absurd h id
+  | cons u rest ih =>
+    intro s s' a h hinv hwf hshape haddr hall hq
+    obtain ⟨hq1, hq2⟩ := hq
+    cases rest with
+    | nil =>
+      have hl : u.last = none := hwf
+      have hfz : u.freeze NONE_ADDRESS = u.node := by simp [UNode.freeze, hl]
+      simp only [BState.compileTail, hl, Option.isSome_none, Bool.and_false, Bool.false_eq_true,
+        if_false, hfz] at h
+      exact compile_pass P h hinv ⟨(hshape u (by simp)).1, (hshape u (by simp)).2.1, haddr u (by simp)⟩
+        hall (P.freeze_none hl hq1)
+    | cons v rest' =>
+      obtain ⟨hsome, hwf'⟩ := WFStack_cons_cons.mp hwf
+      have hshape' : ∀ w ∈ v :: rest', UShape w := fun w hw => hshape w (List.mem_cons_of_mem _ hw)
+      have haddr' : ∀ w ∈ v :: rest', UAddr s w := fun w hw => haddr w (List.mem_cons_of_mem _ hw)
+      obtain ⟨s1, a1, i1, i2, i3, _, _, _, i7, i8⟩ := compileTail_spec (v :: rest') s hinv hwf' hshape' haddr'
+      rw [BState.compileTail, i1] at h
+      simp only [List.isEmpty_cons, Bool.false_and, Bool.false_eq_true, if_false] at h
+      have hall1 := ih s s1 a1 i1 hinv hwf' hshape' haddr' hall hq2
+      have hn : NodeOK s1 (u.freeze a1) :=
+        freeze_nodeOK (hshape u (by simp)) ((haddr u (by simp)).mono i3) i7
+      refine compile_pass P h i2 hn hall1 (P.freeze ?_)
+      rw [i8]
+      exact P.QU_mono i3 (haddr u (by simp)) hq1
+
+theorem compileFrom_pass (P : Pass) {s s' : BState} {front popped : List UNode} {top : UNode}
+    (h : s.compileFrom front.length = .ok s') (hinv : SInv s)
+    (hst : s.stack = front ++ top :: popped) (hwf : WFStack (top :: popped))
+    (hshape : ∀ u ∈ top :: popped, UShape u) (haddr : ∀ u ∈ top :: popped, UAddr s u)
+    (hall : P.OutQ s) (hq : P.StackQ s.out (top :: popped)) :
+    P.OutQ s' ∧ ∃ a, s'.stack = front ++ [⟨top.freeze a, none⟩] ∧ P.Q s'.out (top.freeze a) := by
+  obtain ⟨hq1, hq2⟩ := hq
+  unfold BState.compileFrom at h
+  simp only [hst, take_split, drop_split, List.getLast?_concat, List.dropLast_concat] at h
+  cases popped with
+  | nil =>
+    have hl : top.last = none := hwf
+    simp only [BState.compileTail] at h
+    cases h
+    refine ⟨hall, NONE_ADDRESS, rfl, ?_⟩
+    have hfz : top.freeze NONE_ADDRESS = top.node := by simp [UNode.freeze, hl]
+    rw [hfz]
+    exact P.freeze_none hl hq1
+  | cons v rest =>
+    obtain ⟨hsome, hwf'⟩ := WFStack_cons_cons.mp hwf
+    have hshape' : ∀ w ∈ v :: rest, UShape w := fun w hw => hshape w (List.mem_cons_of_mem _ hw)
+    have haddr' : ∀ w ∈ v :: rest, UAddr s w := fun w hw => haddr w (List.mem_cons_of_mem _ hw)
+    obtain ⟨s1, a1, i1, i2, i3, _, _, _, i7, i8⟩ := compileTail_spec (v :: rest) s hinv hwf' hshape' haddr'
+    rw [i1] at h
+    cases h
+    have hall1 := compileTail_pass P (v :: rest) s s1 a1 i1 hinv hwf' hshape' haddr' hall hq2
+    refine ⟨hall1, a1, rfl, P.freeze ?_⟩
+    show P.QU s1.out top (denR s1.out a1)
+    rw [i8]
+    exact P.QU_mono i3 (haddr top (by simp)) hq1
+
+/-- the frozen top of the stack after `compile_from`, from either description -/
+theorem freeze_eq_of_stack {front : List UNode} {top : UNode} {a a' : Nat} {st : List UNode}
+    (h1 : st = front ++ [⟨top.freeze a, none⟩]) (h2 : st = front ++ [⟨top.freeze a', none⟩]) :
+    top.freeze a = top.freeze a' := by
+  rw [h1] at h2
+  have := List.append_cancel_left h2
+  simp only [List.cons.injEq, UNode.mk.injEq, and_true] at this
+  exact this
+
+
+/-! ### the steps of one accepted non-empty key, as equations -/
+
+theorem insertOutput_new_steps {s : BState} {acc : KV} (hc : Core s acc) (b : UInt8) (bt : Key)
+    (out : Option Nat) (hlt : lexLt (pathKey s.stack) (b :: bt) = true) :
+    ∃ (i rem : Nat) (front : List UNode) (top : UNode) (popped : List UNode) (s2 : BState) (a : Nat)
+      (b2 : UInt8) (bs' : Key),
+      cps s.stack (b :: bt) (out.getD 0) = (i, rem, front ++ top :: popped) ∧ front.length = i ∧
+      ({ s with stack := front ++ top :: popped, len := s.len + 1 } : BState).compileFrom front.length
+        = .ok s2 ∧
+      s2.stack = front ++ [⟨top.freeze a, none⟩] ∧
+      (b :: bt).drop i = b2 :: bs' ∧
+      s.insertOutput (b :: bt) out =
+        .ok { s2 with stack := front ++ ⟨top.freeze a, some (b2, rem)⟩ :: chain bs' } := by
+  rw [insertOutput_cons]
+  have hw1 := cps_wf (b :: bt) s.stack (out.getD 0) hc.wf
+  have hidx := cps_index (b :: bt) s.stack (out.getD 0) hc.wf
+  have hprog : (cps s.stack (b :: bt) (out.getD 0)).1 < (b :: bt).length := by
+    rw [hidx]; exact lcp_lt_of_lexLt _ _ hlt
+  have hlen := cps_length (b :: bt) s.stack (out.getD 0) hc.wf
+  have hplen := pathKey_length hc.wf
+  have hile : (cps s.stack (b :: bt) (out.getD 0)).1 < (cps s.stack (b :: bt) (out.getD 0)).2.2.length := by
+    have := lcp_le_right (b :: bt) (pathKey s.stack)
+    rw [hlen, hidx]; omega
+  have hshape1 := cps_forall UShape (fun u b o c hl h => UShape_setLast hl h)
+    (fun v p h => UShape_addPrefix p h) (b :: bt) s.stack (out.getD 0) hc.wf hc.shape
+  have haddr1 := cps_forall (UAddr s) (fun u b o c _ h => h)
+    (fun v p h => UAddr_addPrefix p h) (b :: bt) s.stack (out.getD 0) hc.wf hc.addr
+  generalize cps s.stack (b :: bt) (out.getD 0) = r at *
+  obtain ⟨i, rem, st1⟩ := r
+  simp only at hw1 hidx hprog hlen hile hshape1 haddr1 ⊢
+  rw [if_neg (Nat.ne_of_lt hprog)]
+  obtain ⟨hsplit, hflen⟩ := stack_split st1 i hile
+  generalize st1.take i = front at *
+  generalize st1[i] = top at *
+  generalize st1.drop (i + 1) = popped at *
+  subst hsplit
+  have hmem : ∀ u, u ∈ front ∨ u ∈ top :: popped → u ∈ front ++ top :: popped := by
+    intro u hu; simpa using hu
+  obtain ⟨hfsome, hwtp⟩ := WFStack_append.mp hw1
+  obtain ⟨s2, a, c1, c2, c3, c4, c5, c6, c7, c8⟩ :=
+    compileFrom_spec (s := { s with stack := front ++ top :: popped, len := s.len + 1 }) (front := front)
+      (popped := popped) (top := top) ⟨hc.sinv.out, hc.sinv.reg⟩ rfl hwtp
+      (fun u hu => hshape1 u (hmem u (Or.inr hu))) (fun u hu => haddr1 u (hmem u (Or.inr hu)))
+  obtain ⟨b2, bs', hdrop⟩ : ∃ b2 bs', (b :: bt).drop i = b2 :: bs' :=
+    ⟨_, _, List.drop_eq_getElem_cons hprog⟩
+  refine ⟨i, rem, front, top, popped, s2, a, b2, bs', rfl, hflen, c1, c4, hdrop, ?_⟩
+  rw [hflen] at c1
+  rw [c1]
+  simp only [hdrop, c4, addSuffix_snoc]
+
+/-! ### tightness: every transition output is attained below it -/
+
+def HasZero (l : KV) : Prop := ∃ k, (k, 0) ∈ l
+
+/-- same shape as `Tight` in `Proofs/Lookup.lean` -/
+def TightStore (s : Store) (den : Nat → KV) : Prop :=
+  ∀ a n, (a, n) ∈ s → ∀ t ∈ n.trans, ∃ k, (k, 0) ∈ den t.addr
+
+def tightPass : Pass where
+  Q out n := ∀ t ∈ n.trans, HasZero (denR out t.addr)
+  QU out u k := (∀ t ∈ u.node.trans, HasZero (denR out t.addr)) ∧ (u.last.isSome → HasZero k)
+  Q_mono := by
+    intro s s' n hle ha hq t ht
+    rw [hle.2.2 _ (ha t ht).1]; exact hq t ht
+  QU_mono := by
+    intro s s' u k hle ha hq
+    exact ⟨fun t ht => by rw [hle.2.2 _ (ha t ht).1]; exact hq.1 t ht, hq.2⟩
+  freeze := by
+    intro out u a hq t ht
+    obtain ⟨h1, h2⟩ := hq
+    unfold UNode.freeze at ht
+    cases hl : u.last with
+    | none => rw [hl] at ht; exact h1 t ht
+    | some bo =>
+      obtain ⟨b, o⟩ := bo
+      rw [hl] at ht
+      simp only [List.mem_append, List.mem_singleton] at ht
+      rcases ht with ht | rfl
+      · exact h1 t ht
+      · exact h2 (by rw [hl]; rfl)
+  freeze_none := by
+    intro out u k _ hq; exact hq.1
+
+theorem tightQU_addPrefix {out : List Emit} {v : UNode} {k : KV} (p : Nat)
+    (h : tightPass.QU out v k) : tightPass.QU out (v.addPrefix p) k := by
+  obtain ⟨h1, h2⟩ := h
+  refine ⟨?_, by rw [addPrefix_last_isSome]; exact h2⟩
+  intro t ht
+  simp only [UNode.addPrefix, List.mem_map] at ht
+  obtain ⟨t0, ht0, rfl⟩ := ht
+  exact h1 t0 ht0
+
+theorem tightQU_pushed {out : List Emit} {v : UNode} {k : KV} (o o' : Nat)
+    (h : tightPass.QU out v k) : tightPass.QU out (pushed o o' v) k := by
+  unfold pushed; split
+  · exact tightQU_addPrefix _ h
+  · exact h
+
+/-- tightness right after output pushing: below a matched transition there is a 0 entry, or
+nothing of the new value is left for the suffix -/
+def TightC (out : List Emit) (rem : Nat) : Nat → List UNode → Prop
+  | 0, st => tightPass.StackQ out st
+  | _+1, [] => True
+  | i+1, u :: rest => (∀ t ∈ u.node.trans, HasZero (denR out t.addr)) ∧
+      (HasZero (denK (denR out) rest []) ∨ pathOut (rest.take i) + rem = 0) ∧ TightC out rem i rest
+
+theorem cps_tight (outE : List Emit) (key : Key) (stack : List UNode) (out : Nat) (hw : WFStack stack) :
+    tightPass.StackQ outE stack →
+      TightC outE (cps stack key out).2.1 (cps stack key out).1 (cps stack key out).2.2 := by
+  revert hw
+  refine cps_induct (motive := fun stack key out => tightPass.StackQ outE stack →
+      TightC outE (cps stack key out).2.1 (cps stack key out).1 (cps stack key out).2.2)
+    ?_ ?_ ?_ ?_ key stack out
+  · intro stack out _ h; rw [cps_nil_key]; exact h
+  · intro u key out _ h; rw [cps_single]; exact h
+  · intro u v rest b bs out _ hl h; rw [cps_stop _ _ _ _ _ _ hl]; exact h
+  · intro u v rest b bs out o _ hl hwv ih hq
+    obtain ⟨hq1, hq2, hq3⟩ := hq
+    have hq' : tightPass.StackQ outE (pushed o out v :: rest) := ⟨tightQU_pushed _ _ hq2, hq3⟩
+    have ih' := ih hq'
+    have hden := cps_den (denR outE) [] bs (pushed o out v :: rest) (out - min o out) hwv
+    obtain ⟨_, p2, _⟩ := cps_path bs (pushed o out v :: rest) (out - min o out) hwv
+    rw [cps_step _ _ _ _ _ _ _ hl]
+    refine ⟨hq1.1, ?_, ih'⟩
+    by_cases hle : o ≤ out
+    · left
+      rw [hden]
+      have hz : o - min o out = 0 := by omega
+      have : pushed o out v = v := by unfold pushed; rw [if_neg (by simpa using hz)]
+      rw [this]
+      exact hq1.2 (by rw [hl]; rfl)
+    · right
+      show pathOut ((cps (pushed o out v :: rest) bs (out - min o out)).2.2.take
+          (cps (pushed o out v :: rest) bs (out - min o out)).1) +
+        (cps (pushed o out v :: rest) bs (out - min o out)).2.1 = 0
+      omega
+
+theorem TightC_drop (out : List Emit) (rem : Nat) (tail : List UNode) : ∀ (front : List UNode),
+    TightC out rem front.length (front ++ tail) → tightPass.StackQ out tail
+  | [], h => h
+  | _ :: front, h => TightC_drop out rem tail front h.2.2
+
+theorem tight_chain (out : List Emit) : ∀ bs : Key, tightPass.StackQ out (chain bs)
+  | [] => ⟨⟨fun t ht => by simp at ht, fun h => by simp at h⟩, trivial⟩
+  | b :: bs => by
+    refine ⟨⟨fun t ht => by simp [BNode.empty] at ht, fun _ => ?_⟩, tight_chain out bs⟩
+    rw [denK_chain]; exact ⟨bs, by simp⟩
+
+theorem tight_rebuild {s s3 : BState} (hle : Le s s3) (rem : Nat) (tail tail3 : List UNode) (key : Key)
+    (htail : denK (denR s3.out) tail3 [] = denK (denR s.out) tail [] ++ [(key, rem)])
+    (hq3 : tightPass.StackQ s3.out tail3) :
+    ∀ front : List UNode, (∀ u ∈ front, u.last.isSome) → (∀ u ∈ front, UAddr s u) →
+      TightC s.out rem front.length (front ++ tail) → tightPass.StackQ s3.out (front ++ tail3)
+  | [], _, _, _ => hq3
+  | u :: front, hsome, haddr, h => by
+    obtain ⟨h1, h2, h3⟩ := h
+    have h2 : HasZero (denK (denR s.out) (front ++ tail) []) ∨
+        pathOut ((front ++ tail).take front.length) + rem = 0 := h2
+    have h3 : TightC s.out rem front.length (front ++ tail) := h3
+    have hsome' : ∀ w ∈ front, w.last.isSome := fun w hw => hsome w (List.mem_cons_of_mem _ hw)
+    have haddr' : ∀ w ∈ front, UAddr s w := fun w hw => haddr w (List.mem_cons_of_mem _ hw)
+    refine ⟨⟨?_, fun _ => ?_⟩, tight_rebuild hle rem tail tail3 key htail hq3 front hsome' haddr' h3⟩
+    · intro t ht
+      rw [hle.2.2 _ (haddr u (by simp) t ht).1]
+      exact h1 t ht
+    · show HasZero (denK (denR s3.out) (front ++ tail3) [])
+      rw [denK_append, htail, denK_snoc _ front hsome', denK_stable hle front _ haddr', ← denK_append]
+      rcases h2 with ⟨k, hk⟩ | h0
+      · exact ⟨k, List.mem_append_left _ hk⟩
+      · rw [List.take_left'  rfl] at h0
+        exact ⟨pathKey front ++ key, List.mem_append_right _ (by rw [h0]; simp)⟩
+
+/-- tightness of a state: emitted nodes and the unfinished stack -/
+def InvT (s : BState) : Prop := tightPass.OutQ s ∧ tightPass.StackQ s.out s.stack
+
+theorem InvT_new (rows cols : Nat) : InvT (BState.new rows cols) := by
+  refine ⟨fun e he => by simp [BState.new] at he, ⟨⟨fun t ht => ?_, fun h => ?_⟩, trivial⟩⟩
+  · simp [BNode.empty] at ht
+  · simp at h
+
+theorem insertOutput_new_tight {s : BState} {acc : KV} (hc : Core s acc) (b : UInt8) (bt : Key)
+    (out : Option Nat) (hlt : lexLt (pathKey s.stack) (b :: bt) = true) (hT : InvT s)
+    {s' : BState} (h : s.insertOutput (b :: bt) out = .ok s') : InvT s' := by
+  obtain ⟨i, rem, front, top, popped, s2, a, b2, bs', hcps, hflen, hcf, hs2, hdrop, hins⟩ :=
+    insertOutput_new_steps hc b bt out hlt
+  rw [hins] at h; cases h
+  have hw1 := cps_wf (b :: bt) s.stack (out.getD 0) hc.wf
+  have hshape1 := cps_forall UShape (fun u b o c hl h => UShape_setLast hl h)
+    (fun v p h => UShape_addPrefix p h) (b :: bt) s.stack (out.getD 0) hc.wf hc.shape
+  have haddr1 := cps_forall (UAddr s) (fun u b o c _ h => h)
+    (fun v p h => UAddr_addPrefix p h) (b :: bt) s.stack (out.getD 0) hc.wf hc.addr
+  have htc := cps_tight s.out (b :: bt) s.stack (out.getD 0) hc.wf hT.2
+  rw [hcps] at hw1 hshape1 haddr1 htc
+  simp only at hw1 hshape1 haddr1 htc
+  have hmem : ∀ u, u ∈ front ∨ u ∈ top :: popped → u ∈ front ++ top :: popped := by
+    intro u hu; simpa using hu
+  obtain ⟨hfsome, hwtp⟩ := WFStack_append.mp hw1
+  have hshape' : ∀ u ∈ top :: popped, UShape u := fun u hu => hshape1 u (hmem u (Or.inr hu))
+  have haddr' : ∀ u ∈ top :: popped, UAddr s u := fun u hu => haddr1 u (hmem u (Or.inr hu))
+  obtain ⟨s2', a', c1, c2, c3, c4, c5, c6, c7, c8⟩ :=
+    compileFrom_spec (s := { s with stack := front ++ top :: popped, len := s.len + 1 }) (front := front)
+      (popped := popped) (top := top) ⟨hc.sinv.out, hc.sinv.reg⟩ rfl hwtp hshape' haddr'
+  rw [hcf] at c1; cases c1
+  have hfz : top.freeze a' = top.freeze a := freeze_eq_of_stack c4 hs2
+  rw [hfz] at c7 c8
+  rw [← hflen] at htc
+  obtain ⟨p1, a'', p2, p3⟩ :=
+    compileFrom_pass tightPass (s := { s with stack := front ++ top :: popped, len := s.len + 1 })
+      hcf ⟨hc.sinv.out, hc.sinv.reg⟩ rfl hwtp hshape' haddr' hT.1 (TightC_drop s.out rem _ front htc)
+  rw [freeze_eq_of_stack p2 hs2] at p3
+  refine ⟨p1, ?_⟩
+  show tightPass.StackQ s2.out (front ++ ⟨top.freeze a, some (b2, rem)⟩ :: chain bs')
+  refine tight_rebuild (s := { s with stack := front ++ top :: popped, len := s.len + 1 }) c3 rem
+    (top :: popped) (⟨top.freeze a, some (b2, rem)⟩ :: chain bs') (b2 :: bs') ?_
+    ⟨⟨p3, fun _ => ?_⟩, tight_chain _ bs'⟩ front hfsome
+    (fun u hu => haddr1 u (hmem u (Or.inl hu))) htc
+  · simp only [denK, denK_chain, c8]
+    simp [lift]
+  · rw [denK_chain]; exact ⟨bs', by simp⟩
+
+theorem insertOutput_empty_tight {s : BState} {acc : KV} (hc : Core s acc) (out : Option Nat)
+    (hp : pathKey s.stack = []) (hT : InvT s) {s' : BState} (h : s.insertOutput [] out = .ok s') :
+    InvT s' := by
+  obtain ⟨top, hst, hl⟩ := pathKey_nil_single hc.wf hp
+  have hsh := hc.shape top (by rw [hst]; simp)
+  have htr : top.node.trans = [] := by have := hsh.2.2; rw [hl] at this; exact this
+  have : s' = { s with len := 1, stack := setRootOutput s.stack (out.getD 0) } := by
+    have : s.insertOutput [] out = .ok { s with len := 1, stack := setRootOutput s.stack (out.getD 0) } := rfl
+    rw [this] at h; cases h; rfl
+  subst this
+  refine ⟨hT.1, ?_⟩
+  show tightPass.StackQ s.out (setRootOutput s.stack (out.getD 0))
+  rw [hst]
+  exact ⟨⟨fun t ht => by simp [htr] at ht, fun hs => by simp [hl] at hs⟩, trivial⟩
+
+/-- `insert` keeps the state tight -/
+theorem insert_tight {s s' : BState} {acc : KV} (h : Inv s acc) (hT : InvT s) {k : Key} {v : Nat}
+    (hi : s.insert k v = .ok s') : InvT s' := by
+  have hlt := insert_ok_lt hi
+  have hck : s.checkLastKey k true = .ok { s with last := some k } := by
+    cases hl : s.last with
+    | none => exact checkLastKey_none k true hl
+    | some last => rw [checkLastKey_map k hl, if_pos (hlt last hl)]
+  unfold BState.insert at hi
+  rw [hck] at hi
+  have hcore := Core_setLast h.core (some k)
+  cases k with
+  | nil =>
+    have hnone : s.last = none := by
+      cases hl : s.last with
+      | none => rfl
+      | some last => have := hlt last hl; cases last <;> simp [lexLt] at this
+    have hp : pathKey s.stack = [] := by rw [h.path, hnone]; rfl
+    exact insertOutput_empty_tight hcore (some v) hp hT hi
+  | cons b bt =>
+    have hp : lexLt (pathKey s.stack) (b :: bt) = true := by
+      rw [h.path]
+      cases hl : s.last with
+      | none => rfl
+      | some last => exact hlt last hl
+    exact insertOutput_new_tight hcore b bt (some v) hp hT hi
+
+theorem insertAll_tight : ∀ (kvs : KV) (s s' : BState) (acc : KV), Inv s acc → InvT s →
+    insertAll s kvs = .ok s' → InvT s'
+  | [], s, s', _, _, hT, e => by cases e; exact hT
+  | kv :: rest, s, s', acc, h, hT, e => by
+    simp only [insertAll] at e
+    cases hi : s.insert kv.1 kv.2 with
+    | error err => rw [hi] at e; cases e
+    | ok s1 =>
+      rw [hi] at e
+      obtain ⟨s1', e1, i1⟩ := insert_new h kv.1 kv.2 (insert_ok_lt hi)
+      rw [hi] at e1; cases e1
+      exact insertAll_tight rest s1 s' _ i1 (insert_tight h hT hi) e
+
+theorem finish_tight {s s' : BState} {acc : KV} {root : Nat} (h : Core s acc) (hT : InvT s)
+    (hf : s.finish = .ok (s', root)) : tightPass.OutQ s' := by
+  obtain ⟨top, popped, hst⟩ : ∃ top popped, s.stack = top :: popped := by
+    cases hs : s.stack with
+    | nil => have := h.wf; rw [hs] at this; exact absurd this id
+    | cons t p => exact ⟨t, p, rfl⟩
+  have hwf : WFStack (top :: popped) := hst ▸ h.wf
+  have hshape : ∀ u ∈ top :: popped, UShape u := fun u hu => h.shape u (hst ▸ hu)
+  have haddr : ∀ u ∈ top :: popped, UAddr s u := fun u hu => h.addr u (hst ▸ hu)
+  obtain ⟨s1, a, c1, c2, c3, c4, c5, c6, c7, c8⟩ :=
+    compileFrom_spec (s := s) (front := []) (popped := popped) (top := top) h.sinv (by simpa using hst)
+      hwf hshape haddr
+  obtain ⟨p1, a', p2, p3⟩ := compileFrom_pass tightPass (front := []) c1 h.sinv (by simpa using hst)
+    hwf hshape haddr hT.1 (hst ▸ hT.2)
+  rw [freeze_eq_of_stack p2 c4] at p3
+  unfold BState.finish at hf
+  simp only [List.length_nil] at c1
+  rw [c1] at hf
+  simp only [c4, List.nil_append, Option.isSome_none, Bool.false_eq_true, if_false] at hf
+  exact compile_pass tightPass hf c2 c7 p1 p3
+
+theorem tightStore_of_OutQ {s : BState} (h : tightPass.OutQ s) :
+    TightStore (storeOf s) (denOf (storeOf s)) := by
+  intro a n hp t ht
+  rw [denOf_storeOf]
+  have := mem_storeOf.mp hp
+  simp only [rstore, List.mem_map, Prod.mk.injEq] at this
+  obtain ⟨e, he, _, hn⟩ := this
+  subst hn
+  exact h e he t ht
+
+/-- TIGHTNESS (map mode): in the store of a finished build every transition output is
+attained, i.e. the denotation of every transition target has an entry of value 0 -/
+theorem build_tight (rows cols : Nat) (kvs : KV) (h : SortedKV kvs) :
+    ∃ s s' root, insertAll (BState.new rows cols) kvs = .ok s ∧ s.finish = .ok (s', root) ∧
+      TightStore (storeOf s') (denOf (storeOf s')) := by
+  obtain ⟨s, e1, i1⟩ := insertAll_inv kvs (BState.new rows cols) [] (Inv_new rows cols)
+    (sortedAfter_none h)
+  obtain ⟨s', root, f1, _⟩ := finish_spec i1.core
+  have hT := insertAll_tight kvs _ s [] (Inv_new rows cols) (InvT_new rows cols) e1
+  exact ⟨s, s', root, e1, f1, tightStore_of_OutQ (finish_tight i1.core hT f1)⟩
+
+
+/-! ### value bound: no output exceeds the largest inserted value
+
+Value arithmetic of the model is on `Nat` (Rust: `u64` `+` and checked `-`). Every output
+stored anywhere is bounded by the largest inserted value, so for values `< 2^64` there is
+no overflow; `cps` only subtracts `min o out` from `o` and from `out`, so no underflow. -/
+
+def NodeBound (M : Nat) (n : BNode) : Prop := n.fout ≤ M ∧ ∀ t ∈ n.trans, t.out ≤ M
+
+def boundPass (M : Nat) : Pass where
+  Q _ n := NodeBound M n
+  QU _ u _ := NodeBound M u.node ∧ ∀ b o, u.last = some (b, o) → o ≤ M
+  Q_mono := fun _ _ h => h
+  QU_mono := fun _ _ h => h
+  freeze := by
+    intro out u a hq
+    obtain ⟨⟨h1, h2⟩, h3⟩ := hq
+    unfold UNode.freeze
+    cases hl : u.last with
+    | none => exact ⟨h1, h2⟩
+    | some bo =>
+      obtain ⟨b, o⟩ := bo
+      refine ⟨h1, ?_⟩
+      intro t ht
+      simp only [List.mem_append, List.mem_singleton] at ht
+      rcases ht with ht | rfl
+      · exact h2 t ht
+      · exact h3 b o hl
+  freeze_none := fun _ hq => hq.1
+
+/-- path sums: the outputs along the pending path plus any output of the node stay ≤ M -/
+def BoundU (M : Nat) : Nat → List UNode → Prop
+  | _, [] => True
+  | acc, u :: rest => (u.node.fin = true → acc + u.node.fout ≤ M) ∧
+      (∀ t ∈ u.node.trans, acc + t.out ≤ M) ∧
+      (∀ b o, u.last = some (b, o) → acc + o ≤ M ∧ BoundU M (acc + o) rest)
+
+theorem BoundU_stackQ (M : Nat) (out : List Emit) : ∀ (st : List UNode) (acc : Nat),
+    WFStack st → BoundU M acc st → (∀ u ∈ st, UShape u) → (boundPass M).StackQ out st
+  | [], _, h, _, _ => absurd h id
+  | u :: rest, acc, hw, h, hs => by
+    obtain ⟨h1, h2, h3⟩ := h
+    have hsh := hs u (by simp)
+    refine ⟨⟨⟨?_, fun t ht => by have := h2 t ht; omega⟩,
+      fun b o hl => by have := (h3 b o hl).1; omega⟩, ?_⟩
+    · cases hf : u.node.fin with
+      | true => have := h1 hf; omega
+      | false => rw [hsh.2.1 hf]; exact Nat.zero_le _
+    · cases rest with
+      | nil => trivial
+      | cons v rest' =>
+        obtain ⟨hsome, hw'⟩ := WFStack_cons_cons.mp hw
+        obtain ⟨bo, hbo⟩ := Option.isSome_iff_exists.mp hsome
+        exact BoundU_stackQ M out (v :: rest') _ hw' (h3 bo.1 bo.2 hbo).2
+          (fun w hw' => hs w (List.mem_cons_of_mem _ hw'))
+
+theorem BoundU_addPrefix (M a p : Nat) (v : UNode) (rest : List UNode)
+    (h : BoundU M (a + p) (v :: rest)) : BoundU M a (v.addPrefix p :: rest) := by
+  obtain ⟨h1, h2, h3⟩ := h
+  refine ⟨?_, ?_, ?_⟩
+  · intro hf
+    have hf' : v.node.fin = true := hf
+    have := h1 hf'
+    simp only [UNode.addPrefix, hf', if_true]
+    omega
+  · intro t ht
+    simp only [UNode.addPrefix, List.mem_map] at ht
+    obtain ⟨t0, ht0, rfl⟩ := ht
+    have := h2 t0 ht0
+    simp only
+    omega
+  · intro b o hl
+    cases hv : v.last with
+    | none => simp [UNode.addPrefix, hv] at hl
+    | some bo =>
+      obtain ⟨b0, o0⟩ := bo
+      simp only [UNode.addPrefix, hv, Option.map_some, Option.some.injEq, Prod.mk.injEq] at hl
+      obtain ⟨rfl, rfl⟩ := hl
+      obtain ⟨g1, g2⟩ := h3 b0 o0 hv
+      refine ⟨by omega, ?_⟩
+      rw [← Nat.add_assoc]; exact g2
+
+theorem cps_bound (M : Nat) (key : Key) (stack : List UNode) (out : Nat) (hw : WFStack stack) :
+    ∀ acc, BoundU M acc stack → acc + out ≤ M → BoundU M acc (cps stack key out).2.2 := by
+  revert hw
+  refine cps_induct (motive := fun stack key out =>
+    ∀ acc, BoundU M acc stack → acc + out ≤ M → BoundU M acc (cps stack key out).2.2)
+    ?_ ?_ ?_ ?_ key stack out
+  · intro stack out _ acc h _; rw [cps_nil_key]; exact h
+  · intro u key out _ acc h _; rw [cps_single]; exact h
+  · intro u v rest b bs out _ hl acc h _; rw [cps_stop _ _ _ _ _ _ hl]; exact h
+  · intro u v rest b bs out o _ hl _ ih acc h hout
+    obtain ⟨h1, h2, h3⟩ := h
+    obtain ⟨g1, g2⟩ := h3 b o hl
+    rw [cps_step _ _ _ _ _ _ _ hl]
+    refine ⟨h1, h2, ?_⟩
+    intro b' c hl'
+    simp only [Option.some.injEq, Prod.mk.injEq] at hl'
+    obtain ⟨rfl, rfl⟩ := hl'
+    refine ⟨by omega, ih _ ?_ (by omega)⟩
+    unfold pushed
+    by_cases hz : o - min o out = 0
+    · rw [if_neg (by simpa using hz)]
+      have : acc + min o out = acc + o := by omega
+      rw [this]; exact g2
+    · rw [if_pos hz]
+      apply BoundU_addPrefix
+      have : acc + min o out + (o - min o out) = acc + o := by omega
+      rw [this]; exact g2
+
+/-- replace what hangs below a path of pending transitions -/
+theorem BoundU_append (M : Nat) (tail tail3 : List UNode) : ∀ (front : List UNode) (acc : Nat),
+    (∀ u ∈ front, u.last.isSome) → BoundU M acc (front ++ tail) →
+    BoundU M (acc + pathOut front) tail ∧
+      (BoundU M (acc + pathOut front) tail3 → BoundU M acc (front ++ tail3))
+  | [], acc, _, h => by simp only [pathOut, Nat.add_zero, List.nil_append]; exact ⟨h, id⟩
+  | u :: front, acc, hsome, h => by
+    obtain ⟨h1, h2, h3⟩ := h
+    obtain ⟨bo, hbo⟩ := Option.isSome_iff_exists.mp (hsome u (by simp))
+    obtain ⟨b, o⟩ := bo
+    obtain ⟨g1, g2⟩ := h3 b o hbo
+    obtain ⟨i1, i2⟩ := BoundU_append M tail tail3 front (acc + o)
+      (fun w hw => hsome w (List.mem_cons_of_mem _ hw)) g2
+    simp only [pathOut, hbo]
+    rw [← Nat.add_assoc]
+    refine ⟨i1, fun h3' => ⟨h1, h2, ?_⟩⟩
+    intro b' o' hl'
+    rw [hbo] at hl'
+    simp only [Option.some.injEq, Prod.mk.injEq] at hl'
+    obtain ⟨rfl, rfl⟩ := hl'
+    exact ⟨g1, i2 h3'⟩
+
+theorem BoundU_chain (M : Nat) : ∀ (bs : Key) (a : Nat), a ≤ M → BoundU M a (chain bs)
+  | [], a, h => ⟨fun _ => by simpa using h, fun t ht => by simp at ht, fun b o hl => by simp at hl⟩
+  | b :: bs, a, h => by
+    refine ⟨fun hf => by simp [BNode.empty] at hf, fun t ht => by simp [BNode.empty] at ht, ?_⟩
+    intro b' o hl
+    simp only [Option.some.injEq, Prod.mk.injEq] at hl
+    obtain ⟨_, rfl⟩ := hl
+    exact ⟨by simpa using h, BoundU_chain M bs _ (by simpa using h)⟩
+
+/-- bounded state: emitted nodes and the unfinished stack -/
+def InvB (M : Nat) (s : BState) : Prop := (boundPass M).OutQ s ∧ BoundU M 0 s.stack
+
+theorem InvB_new (M rows cols : Nat) : InvB M (BState.new rows cols) := by
+  refine ⟨fun e he => by simp [BState.new] at he, ?_, ?_, ?_⟩
+  · intro hf; simp [BNode.empty] at hf
+  · intro t ht; simp [BNode.empty] at ht
+  · intro b o hl; simp at hl
+
+theorem freeze_fin (u : UNode) (a : Nat) : (u.freeze a).fin = u.node.fin ∧ (u.freeze a).fout = u.node.fout := by
+  unfold UNode.freeze
+  cases u.last with
+  | none => exact ⟨rfl, rfl⟩
+  | some bo => exact ⟨rfl, rfl⟩
+
+theorem insertOutput_new_bound {M : Nat} {s : BState} {acc : KV} (hc : Core s acc) (b : UInt8)
+    (bt : Key) (out : Option Nat) (hlt : lexLt (pathKey s.stack) (b :: bt) = true) (hB : InvB M s)
+    (hv : out.getD 0 ≤ M) {s' : BState} (h : s.insertOutput (b :: bt) out = .ok s') : InvB M s' := by
+  obtain ⟨i, rem, front, top, popped, s2, a, b2, bs', hcps, hflen, hcf, hs2, hdrop, hins⟩ :=
+    insertOutput_new_steps hc b bt out hlt
+  rw [hins] at h; cases h
+  have hw1 := cps_wf (b :: bt) s.stack (out.getD 0) hc.wf
+  have hshape1 := cps_forall UShape (fun u b o c hl h => UShape_setLast hl h)
+    (fun v p h => UShape_addPrefix p h) (b :: bt) s.stack (out.getD 0) hc.wf hc.shape
+  have haddr1 := cps_forall (UAddr s) (fun u b o c _ h => h)
+    (fun v p h => UAddr_addPrefix p h) (b :: bt) s.stack (out.getD 0) hc.wf hc.addr
+  have hb1 := cps_bound M (b :: bt) s.stack (out.getD 0) hc.wf 0 hB.2 (by omega)
+  obtain ⟨_, p2, _⟩ := cps_path (b :: bt) s.stack (out.getD 0) hc.wf
+  rw [hcps] at hw1 hshape1 haddr1 hb1 p2
+  simp only at hw1 hshape1 haddr1 hb1 p2
+  rw [← hflen, List.take_left' rfl] at p2
+  have hmem : ∀ u, u ∈ front ∨ u ∈ top :: popped → u ∈ front ++ top :: popped := by
+    intro u hu; simpa using hu
+  obtain ⟨hfsome, hwtp⟩ := WFStack_append.mp hw1
+  have hshape' : ∀ u ∈ top :: popped, UShape u := fun u hu => hshape1 u (hmem u (Or.inr hu))
+  have haddr' : ∀ u ∈ top :: popped, UAddr s u := fun u hu => haddr1 u (hmem u (Or.inr hu))
+  obtain ⟨t1, t2⟩ := BoundU_append M (top :: popped)
+    (⟨top.freeze a, some (b2, rem)⟩ :: chain bs') front 0 hfsome hb1
+  simp only [Nat.zero_add] at t1 t2
+  obtain ⟨p1, _, _, _⟩ :=
+    compileFrom_pass (boundPass M) (s := { s with stack := front ++ top :: popped, len := s.len + 1 })
+      hcf ⟨hc.sinv.out, hc.sinv.reg⟩ rfl hwtp hshape' haddr' hB.1
+      (BoundU_stackQ M s.out _ _ hwtp t1 hshape')
+  refine ⟨p1, t2 ?_⟩
+  obtain ⟨u1, u2, u3⟩ := t1
+  refine ⟨?_, ?_, ?_⟩
+  · intro hf
+    have hf' : (top.freeze a).fin = true := hf
+    rw [(freeze_fin top a).1] at hf'
+    show pathOut front + (top.freeze a).fout ≤ M
+    rw [(freeze_fin top a).2]
+    exact u1 hf'
+  · intro t ht
+    unfold UNode.freeze at ht
+    cases hl : top.last with
+    | none => rw [hl] at ht; exact u2 t ht
+    | some bo =>
+      obtain ⟨b0, o0⟩ := bo
+      rw [hl] at ht
+      simp only [List.mem_append, List.mem_singleton] at ht
+      rcases ht with ht | rfl
+      · exact u2 t ht
+      · exact (u3 b0 o0 hl).1
+  · intro b' o' hl
+    simp only [Option.some.injEq, Prod.mk.injEq] at hl
+    obtain ⟨_, rfl⟩ := hl
+    exact ⟨by omega, BoundU_chain M bs' _ (by omega)⟩
+
+
+theorem insertOutput_empty_bound {M : Nat} {s : BState} {acc : KV} (hc : Core s acc) (out : Option Nat)
+    (hp : pathKey s.stack = []) (hB : InvB M s) (hv : out.getD 0 ≤ M) {s' : BState}
+    (h : s.insertOutput [] out = .ok s') : InvB M s' := by
+  obtain ⟨top, hst, hl⟩ := pathKey_nil_single hc.wf hp
+  have hsh := hc.shape top (by rw [hst]; simp)
+  have htr : top.node.trans = [] := by have := hsh.2.2; rw [hl] at this; exact this
+  have : s' = { s with len := 1, stack := setRootOutput s.stack (out.getD 0) } := by
+    have : s.insertOutput [] out = .ok { s with len := 1, stack := setRootOutput s.stack (out.getD 0) } := rfl
+    rw [this] at h; cases h; rfl
+  subst this
+  refine ⟨hB.1, ?_⟩
+  show BoundU M 0 (setRootOutput s.stack (out.getD 0))
+  rw [hst]
+  refine ⟨fun _ => by simpa using hv, fun t ht => by simp [htr] at ht, fun b o hl' => ?_⟩
+  simp [hl] at hl'
+
+theorem insertOutput_dup_bound {M : Nat} {s : BState} {acc : KV} (hc : Core s acc) (b : UInt8)
+    (bt : Key) (out : Option Nat) (hv : out.getD 0 = 0) (hp : pathKey s.stack = b :: bt)
+    (hB : InvB M s) {s' : BState} (h : s.insertOutput (b :: bt) out = .ok s') : InvB M s' := by
+  rw [insertOutput_cons] at h
+  have hidx := cps_index (b :: bt) s.stack (out.getD 0) hc.wf
+  rw [hp, lcp_self] at hidx
+  obtain ⟨_, p2, _⟩ := cps_path (b :: bt) s.stack (out.getD 0) hc.wf
+  have hrem : (cps s.stack (b :: bt) (out.getD 0)).2.1 = 0 := by omega
+  have hb1 := cps_bound M (b :: bt) s.stack (out.getD 0) hc.wf 0 hB.2 (by omega)
+  rw [if_pos hidx, hrem] at h
+  simp only [ne_eq, not_true_eq_false, if_false] at h
+  cases h
+  exact ⟨hB.1, hb1⟩
+
+/-- `insert` of a value `≤ M` keeps every stored output `≤ M` -/
+theorem insert_bound {M : Nat} {s s' : BState} {acc : KV} (h : Inv s acc) (hB : InvB M s) {k : Key}
+    {v : Nat} (hv : v ≤ M) (hi : s.insert k v = .ok s') : InvB M s' := by
+  have hlt := insert_ok_lt hi
+  have hck : s.checkLastKey k true = .ok { s with last := some k } := by
+    cases hl : s.last with
+    | none => exact checkLastKey_none k true hl
+    | some last => rw [checkLastKey_map k hl, if_pos (hlt last hl)]
+  unfold BState.insert at hi
+  rw [hck] at hi
+  have hcore := Core_setLast h.core (some k)
+  cases k with
+  | nil =>
+    have hnone : s.last = none := by
+      cases hl : s.last with
+      | none => rfl
+      | some last => have := hlt last hl; cases last <;> simp [lexLt] at this
+    have hp : pathKey s.stack = [] := by rw [h.path, hnone]; rfl
+    exact insertOutput_empty_bound hcore (some v) hp hB hv hi
+  | cons b bt =>
+    have hp : lexLt (pathKey s.stack) (b :: bt) = true := by
+      rw [h.path]
+      cases hl : s.last with
+      | none => rfl
+      | some last => exact hlt last hl
+    exact insertOutput_new_bound hcore b bt (some v) hp hB hv hi
+
+/-- `add` keeps every stored output `≤ M` (for any `M`) -/
+theorem add_bound {M : Nat} {s s' : BState} {acc : KV} (h : Inv s acc) (hB : InvB M s) {k : Key}
+    (ha : s.add k = .ok s') : InvB M s' := by
+  have hle := add_ok_le ha
+  have hck : s.checkLastKey k false = .ok { s with last := some k } := by
+    cases hl : s.last with
+    | none => exact checkLastKey_none k false hl
+    | some last => rw [checkLastKey_set k hl, if_pos (hle last hl)]
+  unfold BState.add at ha
+  rw [hck] at ha
+  have hcore := Core_setLast h.core (some k)
+  cases k with
+  | nil =>
+    have hp : pathKey s.stack = [] := by
+      rw [h.path]
+      cases hl : s.last with
+      | none => rfl
+      | some last =>
+        have := hle last hl
+        cases last with
+        | nil => rfl
+        | cons x xs => simp [lexLe, lexLt] at this
+    exact insertOutput_empty_bound hcore none hp hB (Nat.zero_le _) ha
+  | cons b bt =>
+    by_cases hdup : s.last = some (b :: bt)
+    · have hp : pathKey s.stack = b :: bt := by rw [h.path, hdup]; rfl
+      exact insertOutput_dup_bound hcore b bt none rfl hp hB ha
+    · have hp : lexLt (pathKey s.stack) (b :: bt) = true := by
+        rw [h.path]
+        cases hl : s.last with
+        | none => rfl
+        | some last =>
+          rcases lexLe_iff.mp (hle last hl) with h1 | h1
+          · exact h1
+          · subst h1; exact absurd hl hdup
+      exact insertOutput_new_bound hcore b bt none hp hB (Nat.zero_le _) ha
+
+theorem finish_bound {M : Nat} {s s' : BState} {acc : KV} {root : Nat} (h : Core s acc) (hB : InvB M s)
+    (hf : s.finish = .ok (s', root)) : (boundPass M).OutQ s' := by
+  obtain ⟨top, popped, hst⟩ : ∃ top popped, s.stack = top :: popped := by
+    cases hs : s.stack with
+    | nil => have := h.wf; rw [hs] at this; exact absurd this id
+    | cons t p => exact ⟨t, p, rfl⟩
+  have hwf : WFStack (top :: popped) := hst ▸ h.wf
+  have hshape : ∀ u ∈ top :: popped, UShape u := fun u hu => h.shape u (hst ▸ hu)
+  have haddr : ∀ u ∈ top :: popped, UAddr s u := fun u hu => h.addr u (hst ▸ hu)
+  obtain ⟨s1, a, c1, c2, c3, c4, c5, c6, c7, c8⟩ :=
+    compileFrom_spec (s := s) (front := []) (popped := popped) (top := top) h.sinv (by simpa using hst)
+      hwf hshape haddr
+  obtain ⟨p1, a', p2, p3⟩ := compileFrom_pass (boundPass M) (front := []) c1 h.sinv (by simpa using hst)
+    hwf hshape haddr hB.1 (BoundU_stackQ M s.out _ 0 hwf (hst ▸ hB.2) hshape)
+  rw [freeze_eq_of_stack p2 c4] at p3
+  unfold BState.finish at hf
+  simp only [List.length_nil] at c1
+  rw [c1] at hf
+  simp only [c4, List.nil_append, Option.isSome_none, Bool.false_eq_true, if_false] at hf
+  exact compile_pass (boundPass M) hf c2 c7 p1 p3
+
+theorem insertAll_bound {M : Nat} : ∀ (kvs : KV) (s s' : BState) (acc : KV), Inv s acc → InvB M s →
+    (∀ kv ∈ kvs, kv.2 ≤ M) → insertAll s kvs = .ok s' → InvB M s'
+  | [], s, s', _, _, hB, _, e => by cases e; exact hB
+  | kv :: rest, s, s', acc, h, hB, hM, e => by
+    simp only [insertAll] at e
+    cases hi : s.insert kv.1 kv.2 with
+    | error err => rw [hi] at e; cases e
+    | ok s1 =>
+      rw [hi] at e
+      obtain ⟨s1', e1, i1⟩ := insert_new h kv.1 kv.2 (insert_ok_lt hi)
+      rw [hi] at e1; cases e1
+      exact insertAll_bound rest s1 s' _ i1 (insert_bound h hB (hM kv (by simp)) hi)
+        (fun kv' hkv' => hM kv' (List.mem_cons_of_mem _ hkv')) e
+
+theorem addAll_bound {M : Nat} : ∀ (ks : List Key) (s s' : BState), Reachable s → InvB M s →
+    addAll s ks = .ok s' → InvB M s'
+  | [], s, s', _, hB, e => by cases e; exact hB
+  | k :: rest, s, s', hr, hB, e => by
+    simp only [addAll] at e
+    cases hi : s.add k with
+    | error err => rw [hi] at e; cases e
+    | ok s1 =>
+      rw [hi] at e
+      obtain ⟨acc, hinv⟩ := reachable_inv hr
+      exact addAll_bound rest s1 s' (Reachable.add k hr hi) (add_bound hinv hB hi) e
+
+/-- VALUE BOUND (map mode): every output stored in an emitted node is at most the largest
+inserted value -/
+theorem build_bound (rows cols : Nat) (kvs : KV) (h : SortedKV kvs) (M : Nat)
+    (hM : ∀ kv ∈ kvs, kv.2 ≤ M) :
+    ∃ s s' root, insertAll (BState.new rows cols) kvs = .ok s ∧ s.finish = .ok (s', root) ∧
+      ∀ e ∈ s'.out, e.node.fout ≤ M ∧ ∀ t ∈ e.node.trans, t.out ≤ M := by
+  obtain ⟨s, e1, i1⟩ := insertAll_inv kvs (BState.new rows cols) [] (Inv_new rows cols)
+    (sortedAfter_none h)
+  obtain ⟨s', root, f1, _⟩ := finish_spec i1.core
+  have hB := insertAll_bound kvs _ s [] (Inv_new rows cols) (InvB_new M rows cols) hM e1
+  exact ⟨s, s', root, e1, f1, finish_bound i1.core hB f1⟩
+
+example : ∀ kv ∈ ([([], 7), ([1], 5), ([1, 2], 3), ([1, 3], 9), ([2, 3], 1)] : KV), kv.2 ≤ 9 := by
+  decide
+
+/-- VALUE BOUND (set mode): every output stored in an emitted node is 0 -/
+theorem build_bound_set (rows cols : Nat) (ks : List Key) (h : SortedKeysLe ks) :
+    ∃ s s' root, addAll (BState.new rows cols) ks = .ok s ∧ s.finish = .ok (s', root) ∧
+      ∀ e ∈ s'.out, e.node.fout = 0 ∧ ∀ t ∈ e.node.trans, t.out = 0 := by
+  obtain ⟨s, s', root, e1, f1, _⟩ := build_ok_set rows cols ks h
+  have hr := reachable_addAll ks (Reachable.new rows cols) e1
+  obtain ⟨acc, hinv⟩ := reachable_inv hr
+  have hB := addAll_bound (M := 0) ks _ s (Reachable.new rows cols) (InvB_new 0 rows cols) e1
+  have := finish_bound hinv.core hB f1
+  refine ⟨s, s', root, e1, f1, fun e he => ?_⟩
+  obtain ⟨g1, g2⟩ := this e he
+  exact ⟨Nat.le_zero.mp g1, fun t ht => Nat.le_zero.mp (g2 t ht)⟩
+
+/-- the bound holds in every state reached by `insert`s of values `≤ M` and `add`s -/
+theorem insert_bound_reachable {M : Nat} {s s' : BState} (hr : Reachable s) (hB : InvB M s) {k : Key}
+    {v : Nat} (hv : v ≤ M) (hi : s.insert k v = .ok s') : InvB M s' := by
+  obtain ⟨acc, hinv⟩ := reachable_inv hr
+  exact insert_bound hinv hB hv hi
 
 end Fst
